@@ -74,7 +74,7 @@ def initial(n, s, nsl):
 def build(init):
     n = init["n"]
     feats = [gen.mk_feature(parts, type=typ, fid=fid) for (typ, parts, fid) in init["feats"]]
-    la = {"idx": list(init["idx"])}
+    la = {"idx": list(init["idx"]), "tup": tuple(100 + i for i in init["idx"])}
     if init["txt"]:
         la["txt"] = init["txt"]
     return CircularRecord(Seq(init["seq"]), id="rid", name="rname", description="rdesc", dbxrefs=["db:1"],
@@ -114,6 +114,7 @@ def model(init, r):
         feats.append([typ, fid, json.dumps(snapshot._plain(q), sort_keys=True), canon_den(den, n)])
     feats.sort(key=lambda x: (x[1], x[0]))
     la = {"idx": list(rm.rot_right(init["idx"], r)) if r else list(init["idx"])}
+    la["tup"] = [100 + i for i in la["idx"]]
     if init["txt"]:
         la["txt"] = rm.rot_right(init["txt"], r)
     return dict(seq=rm.rot_right(init["seq"], r), feats=feats, la=la, id="rid", name="rname", description="rdesc",
